@@ -43,12 +43,17 @@ Lemma rb_wf_of_unsynced s :
   rx_unsynced s -> rb_wf (s_rx_buffer s) /\ rb_cap (s_rx_buffer s) <= p30.
 Proof. intros (Hwf & Hcap & _). split; assumption. Qed.
 
+Lemma tcp_state_eqb_true a b : tcp_state_eqb a b = true -> a = b.
+Proof. destruct a, b; cbn; intros H; try discriminate; reflexivity. Qed.
+
 Lemma listen_unsynced s ep s' :
   rb_wf (s_rx_buffer s) -> rb_cap (s_rx_buffer s) <= p30 ->
-  tcp_listen s ep = Ok s' -> s' = s \/ rx_unsynced s'.
+  tcp_listen s ep = Ok s' -> (s' = s /\ s_state s = Listen) \/ rx_unsynced s'.
 Proof.
-  intros Hwf Hcap H. unfold tcp_listen in H. des_all H; inversion H; subst s'; clear H;
-    [left; reflexivity|].
+  intros Hwf Hcap H. unfold tcp_listen in H. des_all H; inversion H; subst s'; clear H.
+  { left. split; [reflexivity|].
+    match goal with E : (_ && _)%bool = true |- _ => apply andb_prop in E; destruct E as (E & _) end.
+    apply tcp_state_eqb_true. assumption. }
   right. pose proof (reset_unsynced s Hwf Hcap) as Hr. revert Hr. generalize (tcp_reset s). intros s0 Hr.
   apply (unsynced_state_change s0); [| |exact Hr].
   - unfold rxv_eq. rproj. repeat split; reflexivity.
